@@ -138,7 +138,7 @@ func checkID(ctx *pbt.Ctx, c IDCase) error {
 	}
 	tx := ref.ToLib(m)
 	ctx.After(ref.Intact(tx))
-	fq := ref.FeeQuoteToLib(c.Quote)
+	fq := ref.FeeQuoteToLibTagged(c.Quote)
 	ctx.Key(ref.Encode(m, true), []byte(fmt.Sprint(c.Quote.Std, c.Quote.Data)))
 
 	// -- 1. partition of bytes ------------------------------------------------
@@ -197,6 +197,7 @@ func checkID(ctx *pbt.Ctx, c IDCase) error {
 	}
 	ctx.Labelf("paid-enough(actual)=%v", ok)
 	ctx.Label("rel=" + c.Rel)
+	ctx.Label(feeTagLabel(c.Quote))
 	if two63 := new(big.Int).Lsh(big.NewInt(1), 63); inSum.Cmp(two63) >= 0 || outSum.Cmp(two63) >= 0 {
 		switch {
 		case inSum.Cmp(outSum) < 0:
@@ -334,7 +335,24 @@ func genUnit(t *rapid.T, label string) ref.FeeUnit {
 }
 
 func genQuote(t *rapid.T) ref.FeeQuote {
-	return ref.FeeQuote{Std: genUnit(t, "std"), Data: genUnit(t, "data"), StdRelay: genUnit(t, "stdrelay"), DataRelay: genUnit(t, "datarelay")}
+	return ref.FeeQuote{Std: genUnit(t, "std"), Data: genUnit(t, "data"), StdRelay: genUnit(t, "stdrelay"), DataRelay: genUnit(t, "datarelay"),
+		StdTag: genFeeTag(t, "stdtag"), DataTag: genFeeTag(t, "datatag")}
+}
+
+// genFeeTag draws what the informational FeeType field of a registered *bt.Fee carries: equal
+// to the key it is registered under, empty, or the other fee type (a copied and edited object).
+func genFeeTag(t *rapid.T, label string) int {
+	return []int{ref.FeeTagKey, ref.FeeTagKey, ref.FeeTagEmpty, ref.FeeTagOther}[rapid.IntRange(0, 3).Draw(t, label)]
+}
+
+func feeTagLabel(q ref.FeeQuote) string {
+	switch {
+	case q.StdTag == ref.FeeTagOther || q.DataTag == ref.FeeTagOther:
+		return "fee-type-field=other-type"
+	case q.StdTag == ref.FeeTagEmpty || q.DataTag == ref.FeeTagEmpty:
+		return "fee-type-field=empty"
+	}
+	return "fee-type-field=key"
 }
 
 // sanitiseUnsupported makes sure a generated "unsupported" script can be neither
